@@ -257,7 +257,10 @@ class QueueChecker:
         """items that have left the real buffer but have not been reported as received yet:
         a process of the compatibility layer takes an item in one activation and hands it to
         its generator in a later one"""
-        real = {unwrap(item) for item in self.queue._buffer}
+        real_buffer = getattr(self.queue, '_buffer', None)
+        if real_buffer is None:
+            return []       # (a queue that keeps its items elsewhere: nothing to look at)
+        real = {unwrap(item) for item in real_buffer}
         return [item for item in self.buffered() if item not in real]
 
     def withdrawn(self, who):
@@ -267,7 +270,15 @@ class QueueChecker:
             self.pending.remove(who)
 
     def quiescence(self, sess, loop):
-        final = [unwrap(item) for item in self.queue._buffer]
+        real_buffer = getattr(self.queue, '_buffer', None)
+        if real_buffer is None:
+            # The final accounting reads the private buffer of the queue. A queue that keeps
+            # its items elsewhere is still judged by everything observed through the public
+            # operations; only this end-of-run accounting is skipped (and counted).
+            self.stats['final_accounting_skipped'] = self.stats.get(
+                'final_accounting_skipped', 0) + 1
+            return
+        final = [unwrap(item) for item in real_buffer]
         pending_nones = [item for item in self.buffered() if item in self.none_idents]
         final = [item if item is not None else (pending_nones.pop(0) if pending_nones else None)
                  for item in final]
@@ -294,7 +305,7 @@ class QueueChecker:
             self.violation('waiter-starved',
                            'at quiescence %s still wait for an item while %s are buffered' % (
                                self.pending, final))
-        elif self.pending and self.queue._closed:
+        elif self.pending and getattr(self.queue, '_closed', False):
             self.violation('waiter-not-closed',
                            'at quiescence %s still wait on a closed, empty queue' % (
                                self.pending,))
